@@ -142,6 +142,10 @@ def build(node, ws):
         return lb
     if k == "fpile":  # pile of flow widgets inside a filler (box)
         return urwid.Filler(urwid.Pile([build(c, ws) for c in node[1]]), node[2])
+    if k == "hpile":  # box pile with fixed heights: (rows or None = the rest, child)
+        return urwid.Pile([build(c, ws) if h is None else (h, build(c, ws)) for h, c in node[1]])
+    if k == "fcols":  # columns of fixed widths: (cols or None = the rest, child)
+        return urwid.Columns([build(c, ws) if w is None else (w, build(c, ws)) for w, c in node[1]])
     if k == "pile":  # box pile: (weight, child)
         return urwid.Pile([("weight", w, build(c, ws)) for w, c in node[1]])
     if k == "cols":
@@ -419,12 +423,23 @@ def canvas_geometry(canv):
     return cw, pad_top, img_h, pad_left, img_w
 
 
+def drawn_z(canv):
+    """the z-indexes actually present in the display commands of an image canvas"""
+    zs = set()
+    for line in canv._ti_lines:
+        for t in tokenize(line.decode()):
+            if t[0] == "K":
+                zs.add(int(t[1:].split(",")[2]))
+    return sorted(zs)
+
+
 class CanvTable:
     """small stable ids for canvas objects (first appearance) and what the code reads off them"""
 
     def __init__(self, widget_ids):
         self.ids: dict = {}
         self.tab: list = []
+        self.drawn: dict = {}  # canvas id → (widget id, allocated z, drawn z-indexes) of kitty canvases
         self.widget_ids = widget_ids
 
     def cid(self, canv) -> int:
@@ -442,6 +457,7 @@ class CanvTable:
                     im = w._ti_image
                     if isinstance(im, KittyImage):
                         kind, z, geo = 1, w._ti_z_index, canvas_geometry(canv)
+                        self.drawn[len(self.tab)] = (wid, z, drawn_z(canv))
                     elif isinstance(im, ITerm2Image):
                         kind, geo = 2, canvas_geometry(canv)
                     else:
@@ -498,6 +514,7 @@ def run_script(sc: dict):
                     rec["same"] = canvas is scr._ti_screen_canv
                     rec["desc"] = describe_canvas(canvas, ct)
                     rec["canvas"] = canvas
+                    rec["zdrawn"] = dict(ct.drawn)
                     rec["top_id"] = top_ids.setdefault(id(canvas), (len(top_ids), canvas))[0]
                     rec["before"] = term.copy()
                     if not st.get("badsize"):
